@@ -24,7 +24,8 @@ type fakeCC struct {
 	done    chan struct{}
 	log     []uint64
 	handled map[uint64]int
-	waitFor map[uint64]uint64 // message -> later message its handler waits for (nested request)
+	waitFor map[uint64]uint64 // message -> later message its handler waits for (nested request); 99 = until the nested request is cancelled
+	released bool
 	r       **client.ReceivedMessageReader[*fakeCC]
 	blocked bool
 }
@@ -38,7 +39,7 @@ func (f *fakeCC) ProcessReceivedMessage(req *pool.Message) {
 		// another loop take over, then waits for the response (a later message)
 		f.blocked = true
 		(*f.r).TryToReplaceLoop()
-		vrt.WaitUntil(fmt.Sprintf("handler(%d) waits for message %d", seq, w), func() bool { return f.handled[w] > 0 })
+		vrt.WaitUntil(fmt.Sprintf("handler(%d) waits for message %d", seq, w), func() bool { return f.handled[w] > 0 || (w == 99 && f.released) })
 	} else {
 		vrt.Point(fmt.Sprintf("handler(%d) body", seq))
 	}
@@ -80,6 +81,9 @@ func scenario(c cfg) *mcx.Scenario {
 				}
 				if c.Close {
 					vrt.App("closer", func() { vrt.Close(cc.done) })
+				}
+				if strings.Contains(c.Nested, ">99") {
+					vrt.App("canceller", func() { cc.released = true }) // the outer nested request is cancelled at some point
 				}
 				for i := 1; i <= c.N; i++ {
 					m := pool.NewMessage(context.Background())
@@ -140,6 +144,10 @@ func main() {
 			}
 		}
 		scs = append(scs, scenario(cfg{Q: q, N: 3, Replacer: 2, Preempt: pb}))
+		// an outer handler returns (its nested request was cancelled / answered by a deeper loop) while a later
+		// handler is running and is about to issue its own nested request
+		scs = append(scs, scenario(cfg{Q: q, N: 3, Nested: "1>99,2>3", Preempt: pb}))
+		scs = append(scs, scenario(cfg{Q: q, N: 5, Nested: "1>3,2>5,4>5", Preempt: pb - 1}))
 		scs = append(scs, scenario(cfg{Q: q, N: 4, Nested: "1>4,2>4,3>4", Preempt: pb - 1}))
 		if r.Thorough() {
 			scs = append(scs, scenario(cfg{Q: q, N: 4, Replacer: 1, Preempt: 3}))
